@@ -21,7 +21,7 @@ ANCHOR_FILES = ["src/ropt/plugins/sampler/scipy.py", "src/ropt/plugins/sampler/b
 EXECUTION_COUNTERS = ["calls_checked"]   # executions of the oracle inside the cases (reported as coverage.evaluations)
 RULE = ("case = one sampler configuration (method, R, P, V, mask, assignment, shared, seed) called 3 times; non-trivial if the sampler handles at least one variable; "
         "QMC cases additionally need V_handled>1 and R*P>1 to be able to expose scrambling (counted separately); distinct key = case index")
-ASSUMPTIONS = ["the array returned by generate_samples belongs to the caller (ropt itself adds the other samplers' output into it in place), so the harness overwrites it between calls",
+ASSUMPTIONS = ["callers do not write into the array returned by generate_samples (ropt's own caller stopped doing so with /repo commit 08fcbdd)",
                "non-shared realizations 'differ' is only required when R>=2 and at least one handled variable (probability of an accidental tie is negligible for continuous draws)"]
 REQUIRED = {"quick": {"calls_checked": 3600, "qmc_vectors_matched": 8000, "qmc_multidim_cases": 296, "lhs_strata_checked": 300, "shared_checked": 600, "unhandled_zero_entries": 5000, "e2e_checked": 120, "samplers_with_explicit_options": 60, "__nontrivial__": 1142},
             "thorough": {"calls_checked": 90000, "qmc_vectors_matched": 200000, "qmc_multidim_cases": 7227, "lhs_strata_checked": 8000, "shared_checked": 15000, "unhandled_zero_entries": 120000, "e2e_checked": 2400, "samplers_with_explicit_options": 1500, "__nontrivial__": 27891}}
@@ -112,10 +112,9 @@ def run_case(case, obs):
         for _ in range(3):
             ret = sampler.generate_samples()
             outs.append(np.array(ret, copy=True))
-            # the only caller in ropt accumulates the other samplers' output into the returned array
-            # ("samples += ..."): emulate that, a later call must not be affected by it
-            if ret.flags.writeable:
-                ret += 1234.5
+            # (until /repo commit 08fcbdd ropt's only caller added the other samplers' output into the returned array, and the
+            # harness emulated that by overwriting it; ropt no longer writes into it, so neither does the harness: a sampler
+            # that hands out the same block twice is not a violation of C17)
     finally:
         _REC["on"] = False
     log = list(_REC["log"])
